@@ -1,7 +1,7 @@
 CONSTANTS
   Modes = {"sp", "cm", "up"}
   MaxW = 3
-  MaxT = 7
+  MaxT = 6
   MaxC = 1
   Dups = TRUE
   MaxEdits = 1
